@@ -458,7 +458,7 @@ func enumerateC10(c *Ctx, sc0 *Scenario) *enumResult {
 		}
 	}
 	stdinLines := map[string]int{"rev-list": len(base.Run.RevListStdin), "batch-check": len(base.Run.BatchCheckIn), "batch": len(base.Run.BatchIn)}
-	limit := 1200
+	limit := 700
 	if c.Tier == "thorough" {
 		limit = 1 << 30
 	}
